@@ -289,7 +289,7 @@ func genC13Spec(r *Rng, g *EvGen) c13Spec {
 
 func genC13Hist(r *Rng, g *EvGen) []mocrelay.ClientMsg {
 	var hist []mocrelay.ClientMsg
-	subs := []string{"a", "b", "c"}
+	subs := []string{"a", "b", "c", ""}
 	n := r.Range(5, 11)
 	for i := 0; i < n; i++ {
 		switch r.Intn(7) {
